@@ -156,7 +156,14 @@ impl MonoContext {
     ) -> Option<Vec<AirType>> {
         let mut resolved: HashMap<u32, AirType> = HashMap::new();
 
-        for (param, arg) in generic_func.params.iter().zip(args.iter()) {
+        // a generic function that captures (e.g. reads a top-level `let`) is lowered as a
+        // closure whose first parameter is the environment; call sites pass the user
+        // arguments only, so the environment is not part of the pairing
+        let user_params = generic_func
+            .params
+            .iter()
+            .skip_while(|p| p.name == "__env" && matches!(p.ty, AirType::Ptr(_)));
+        for (param, arg) in user_params.zip(args.iter()) {
             let arg_ty = self.operand_type(arg, caller);
             self.unify_param(&param.ty, &arg_ty, &mut resolved);
         }
